@@ -426,14 +426,30 @@ func (fr *Frame) loopHead(l *Loop, reach *Term, st *State) (*Term, *State) {
 	mods := fr.modVarsOfBlocks(l.Blocks)
 	fr.havoc(st, pre, reach, mods, fmt.Sprintf("L%d", l.Ordinal))
 	hreach := vc.define(fmt.Sprintf("reach.%s.loop%d", fr.id, l.Ordinal), "Bool", reach)
+	var rec *cutRec
+	if ls.HasFocus && fr.depth == 0 {
+		rec = &cutRec{loop: true, soft: true, facts: map[int]string{}, keep: map[string]bool{}}
+		for _, l := range ls.Focus {
+			rec.keep[l] = true
+		}
+		if vc.loopFocus == nil {
+			vc.loopFocus = map[*Loop]*cutRec{}
+		}
+		vc.loopFocus[l] = rec
+	}
 	for i, inv := range ls.Invariants {
 		sc := fr.invScope(l, st)
 		t, err := sc.compileBool(inv.Expr)
 		if err != nil {
-			_ = i
 			continue
 		}
+		n0 := len(vc.cmds)
 		vc.assume(hreach, t)
+		if rec != nil {
+			for j := n0; j < len(vc.cmds); j++ {
+				rec.facts[j] = clauseLabel(inv, i)
+			}
+		}
 	}
 	if fr.depth == 0 {
 		vc.loopGuards = append(vc.loopGuards, hreach)
@@ -447,6 +463,7 @@ func (fr *Frame) loopBack(l *Loop, reach *Term, st *State) {
 	if ls == nil {
 		return
 	}
+	vc.focusLoop = l
 	for i, inv := range ls.Invariants {
 		sc := fr.invScope(l, st)
 		t, err := sc.compileBool(inv.Expr)
@@ -455,6 +472,7 @@ func (fr *Frame) loopBack(l *Loop, reach *Term, st *State) {
 		}
 		vc.oblige(fmt.Sprintf("inv%d.pres", l.Ordinal), clauseLabel(inv, i), reach, t, l.Pos, inv.Src, inv.Props, "")
 	}
+	vc.focusLoop = nil
 }
 
 func clauseLabel(c *Clause, i int) string {
